@@ -308,14 +308,16 @@ def molarMassOf (t : Tbl α) (atoms : List (Atom × α)) : α :=
 
 /-- the arithmetic of one wavelength entry, for a compound whose atoms all have records;
     atoms without record contribute nothing (never reached: guarded by the `has_sld` loop) -/
+def sumsStep (t : Tbl α) (w : α) (a : Acc α) (e : Atom × α) : Acc α :=
+  match t.neutron e.1 with
+  | some r =>
+    let bs := scatteringByWavelength r w
+    ⟨a.molarMass + t.atomMass e.1 * e.2, a.numAtoms + e.2,
+     Cx.add a.bc (Cx.smul e.2 bs.1), a.sigS + e.2 * bs.2⟩
+  | none => a
+
 def sumsAt (t : Tbl α) (w : α) (atoms : List (Atom × α)) : Acc α :=
-  atoms.foldl (fun a e =>
-    match t.neutron e.1 with
-    | some r =>
-      let bs := scatteringByWavelength r w
-      ⟨a.molarMass + t.atomMass e.1 * e.2, a.numAtoms + e.2,
-       Cx.add a.bc (Cx.smul e.2 bs.1), a.sigS + e.2 * bs.2⟩
-    | none => a) Acc.zero
+  atoms.foldl (sumsStep t w) Acc.zero
 
 def entryAt (t : Tbl α) (atoms : List (Atom × α)) (density w : α) : Scat α :=
   let a := sumsAt t w atoms
@@ -355,14 +357,16 @@ def isotopeDensity (rhoEl mIso mEl : α) : α := rhoEl * (mIso / mEl)
 
 /-- `_sum_piece`: `(num_atoms, molar_mass, b_c, sigma_s)`; unlike `neutron_scattering` there is
     no `has_sld` test – an atom without data makes `ones*None` raise (`none`) -/
+def pieceStep (t : Tbl α) (w : α) (acc : Option (Acc α)) (e : Atom × α) : Option (Acc α) :=
+  match acc, t.neutron e.1 with
+  | some a, some r =>
+    let bs := scatteringByWavelength r w
+    some ⟨a.molarMass + t.atomMass e.1 * e.2, a.numAtoms + e.2,
+          Cx.add a.bc (Cx.smul e.2 bs.1), a.sigS + e.2 * bs.2⟩
+  | _, _ => none
+
 def sumPiece (t : Tbl α) (w : α) (atoms : List (Atom × α)) : Option (Acc α) :=
-  atoms.foldl (fun acc e =>
-    match acc, t.neutron e.1 with
-    | some a, some r =>
-      let bs := scatteringByWavelength r w
-      some ⟨a.molarMass + t.atomMass e.1 * e.2, a.numAtoms + e.2,
-            Cx.add a.bc (Cx.smul e.2 bs.1), a.sigS + e.2 * bs.2⟩
-    | _, _ => none) (some Acc.zero)
+  atoms.foldl (pieceStep t w) (some Acc.zero)
 
 /-- `np.sum(weights*parts)` -/
 def dotSum (ws ps : List α) : α := (List.zipWith (· * ·) ws ps).foldl (· + ·) 0
